@@ -87,3 +87,59 @@ Section Cfb.
       rewrite (last_nth T iv []) by (destruct T; simpl in *; [lia|discriminate]). reflexivity.
   Qed.
 End Cfb.
+
+(* ---- C03 over the translated source: the whole block sequence ---------------------------------------- *)
+From BM Require Import BlockModes_proofs Spec.
+Section CfbSource.
+  Variable C : cipher.
+  Let X := bctx C [] [].
+  Definition src_cfb_enc_step (iv : block) (c : cell) : option (block * cell) :=
+    match call_fn X cfb_mode__encrypt__BlockModeEncBackend__CbcEncryptBackend__encrypt_block [be_self iv; VCell c] with
+    | Some (VUnit, [VStruct _ [("iv", VBlk iv'); _]; VCell c']) => Some (iv', c') | _ => None end.
+  Definition src_cfb_dec_step (iv : block) (c : cell) : option (block * cell) :=
+    match call_fn X cfb_mode__decrypt__BlockModeDecBackend__CbcDecryptBackend__decrypt_block [be_self iv; VCell c] with
+    | Some (VUnit, [VStruct _ [("iv", VBlk iv'); _]; VCell c']) => Some (iv', c') | _ => None end.
+
+  (* any block cipher E (the handle offers no decryption), any block sizes *)
+  Theorem C03_cfb_enc_source s cs :
+    fold_src src_cfb_enc_step s cs
+    = Some (last (map (c_E C) (cfb_enc_st (c_E C) s (map rd_in cs))) s, map2 wr_out cs (cfb_enc_st (c_E C) s (map rd_in cs))).
+  Proof.
+    rewrite (fold_src_ok src_cfb_enc_step (cfb_enc_block C) (fun _ => True) (fun _ => True)).
+    - now rewrite cfb_enc_fold.
+    - intros st c _ _. unfold src_cfb_enc_step, X. rewrite (tie_cfb_encrypt_block C st c).
+      destruct (cfb_enc_block C st c). split; [reflexivity|exact I].
+    - exact I.
+    - apply Forall_forall. auto.
+  Qed.
+
+  Theorem C03_cfb_dec_source s cs :
+    fold_src src_cfb_dec_step s cs
+    = Some (last (map (c_E C) (map rd_in cs)) s, map2 wr_out cs (cfb_dec_st (c_E C) s (map rd_in cs))).
+  Proof.
+    rewrite (fold_src_ok src_cfb_dec_step (cfb_dec_block C) (fun _ => True) (fun _ => True)).
+    - now rewrite cfb_dec_fold.
+    - intros st c _ _. unfold src_cfb_dec_step, X. rewrite (tie_cfb_decrypt_block C st c).
+      destruct (cfb_dec_block C st c). split; [reflexivity|exact I].
+    - exact I.
+    - apply Forall_forall. auto.
+  Qed.
+
+  (* C07 over the translated source: the hand-written parallel body = the translated single-block body block by block *)
+  Theorem C07_cfb_dec_par_source iv cs zb : cs <> [] ->
+    call_fn (bctx C [] [("ParBlocks::<Self>::default()", VBlks (repeat zb (length cs)))])
+            cfb_mode__decrypt__BlockModeDecBackend__CbcDecryptBackend__decrypt_par_blocks [be_self iv; VCells cs]
+    = match fold_src src_cfb_dec_step iv cs with
+      | Some (iv', cs') => Some (VUnit, [be_self iv'; VCells cs'])
+      | None => None
+      end.
+  Proof.
+    intros Hne. rewrite (tie_cfb_decrypt_par_blocks C iv cs zb Hne).
+    rewrite (fold_src_ok src_cfb_dec_step (cfb_dec_block C) (fun _ => True) (fun _ => True)).
+    - now rewrite cfb_dec_par_ok.
+    - intros st c _ _. unfold src_cfb_dec_step, X. rewrite (tie_cfb_decrypt_block C st c).
+      destruct (cfb_dec_block C st c). split; [reflexivity|exact I].
+    - exact I.
+    - apply Forall_forall. auto.
+  Qed.
+End CfbSource.
